@@ -50,6 +50,11 @@ def standins_for(pid):
     return [dict(name=s["name"], bound=s["bound"]) for s in STANDINS.values() if pid in s["props"] and s["name"] in en]
 
 
+def _is_harness_problem(f):
+    d = str(f.get("detail", ""))
+    return ("harness exception" in d or "chain session raised" in d or "subprocess.TimeoutExpired" in d or "TimeoutExpired:" in d)
+
+
 def run_standin(name, pid, tier, seed):
     _load()
     s = STANDINS[name]
@@ -60,6 +65,13 @@ def run_standin(name, pid, tier, seed):
             for lab, fid in LABEL_TO_FINDING.items():
                 if str(f["label"]).startswith(lab):
                     f["finding"] = fid
+    # A problem of the harness itself (a pytest subprocess that hit the wall-clock safety net on a loaded machine, an exception in the
+    # driver code) is not a statement about the property: it is reported as a checker fault (exit 3), never as a failing input / VIOLATION.
+    harness = [f for f in r.get("failures", []) if _is_harness_problem(f)]
+    if harness:
+        r["failures"] = [f for f in r["failures"] if not _is_harness_problem(f)]
+        first = str(harness[0].get("detail", ""))
+        r["error"] = (r.get("error") or "") + f"{len(harness)} harness problem(s), not property violations; first: " + " | ".join(first.strip().splitlines()[-2:])[:400]
     r.setdefault("name", name)
     r.setdefault("bound", s["bound"])
     r.setdefault("failures", [])
